@@ -491,6 +491,10 @@ class ExprMixin:
             if r is not None:
                 return r
         if isinstance(op, (ast.In, ast.NotIn)):
+            a = self.resolve_union(a, st)
+        if isinstance(op, (ast.Eq, ast.NotEq)) and (isinstance(a.ty, T.Union) != isinstance(b.ty, T.Union)):
+            a, b = self.resolve_union(a, st), self.resolve_union(b, st)
+        if isinstance(op, (ast.In, ast.NotIn)):
             b = self.deopt(b, st, node)
             if b.is_py and ops.is_carrier(b.py) and b.py[0] == "iterinfo":
                 from . import models
@@ -565,6 +569,18 @@ class ExprMixin:
                     if name in k.__dict__ and not callable(k.__dict__[name]) and not isinstance(k.__dict__[name], (property, staticmethod, classmethod)):
                         return self.wrap_py(k.__dict__[name], name)
             raise Unsupported(f"attribute {cs.name}.{name} is not declared in the contract vocabulary", node)
+        if isinstance(recv.ty, T.Enum):
+            import enum as _enum
+
+            if recv.is_py and isinstance(recv.py, _enum.Enum) and name in ("value", "name"):
+                return Val.const(getattr(recv.py, name))
+            if not recv.is_py and name in ("value", "name"):
+                vt = recv.ty.value_type() if name == "value" else T.STR
+                if vt is None:
+                    raise Unsupported(f"{recv.ty}.value: members of mixed value types", node)
+                f_ = (lambda m: z3.IntVal(int(m.value))) if (name == "value" and vt == T.INT) else (lambda m: z3.StringVal(getattr(m, name)))
+                return Val(vt, recv.ty.chain(recv.term, f_))
+            raise Unsupported(f"attribute {name} of an enum member", node)
         if isinstance(recv.ty, T.Named) and name in recv.ty.names and not recv.is_py:
             k = recv.ty.names.index(name)
             return Val(recv.ty.items[k], recv.ty.sort().accessor(0, k)(recv.term))
@@ -608,11 +624,28 @@ class ExprMixin:
         return sol.check() == z3.unsat
 
     def deopt(self, v: Val, st, node=None) -> Val:
-        """Use of an Optional value where a value is required: obligation `is not None`."""
+        """Use of an Optional value where a value is required: obligation `is not None`.
+        A Union value whose alternative is fixed by the path condition is used at that alternative."""
         if isinstance(v.ty, T.Opt) and not v.is_py:
             s = v.ty.sort()
             self.safety(st, s.is_some(v.term), "TypeError", node)
             return Val(v.ty.inner, s.val(v.term))
+        if isinstance(v.ty, T.Union) and not v.is_py:
+            return self.resolve_union(v, st)
+        return v
+
+    def resolve_union(self, v: Val, st) -> Val:
+        """the payload of a Union value when the path condition entails which alternative it is (else the value itself);
+        python-level tuples / lists are resolved component-wise"""
+        if v.is_py and v.ty is PYOBJ and isinstance(v.py, (tuple, list)) and ops._has_val(v.py):
+            items = [self.resolve_union(x, st) if isinstance(x, Val) else x for x in v.py]
+            return Val(PYOBJ, None, type(v.py)(items), True)
+        if not isinstance(v.ty, T.Union) or v.is_py:
+            return v
+        s = v.ty.sort()
+        for i, alt in enumerate(v.ty.alts):
+            if self.entails(st, getattr(s, f"is_alt{i}")(v.term)):
+                return Val(alt, getattr(s, f"v{i}")(v.term))
         return v
 
     def getitem(self, recv: Val, idx: Val, st, node=None) -> Val:
@@ -631,6 +664,18 @@ class ExprMixin:
                 raise Unsupported("constant key missing", node)
             x = recv.py[idx.py]
             return x if isinstance(x, Val) else (Val.const(x) if isinstance(x, ops._CT) else self.wrap_py(x, str(idx.py)))
+        if recv.is_py and isinstance(recv.py, dict) and recv.py and not is_const(idx):
+            # a concrete dict (e.g. a class-level table) with a SYMBOLIC key: ite over the entries + KeyError obligation
+            try:
+                entries = [((k if isinstance(k, Val) else self.wrap_py(k)), (x if isinstance(x, Val) else self.wrap_py(x))) for k, x in recv.py.items()]
+                hits = [z3bool(ops.equal(idx, k)) for k, _ in entries]
+                self.safety(st, z3.Or(*hits), "KeyError", node)
+                res = entries[-1][1]
+                for h, (_, x) in reversed(list(zip(hits, entries))[:-1]):
+                    res = ops.ite(h, x, res)
+                return res
+            except (Unsupported, ContractMisfit):
+                pass
         if recv.is_py and isinstance(recv.py, dict):
             # concrete dict, symbolic key: lift when homogeneous
             if recv.ty is PYOBJ:
